@@ -588,3 +588,5 @@ PROPS["C12"]["rule"] += " Every 'inconsistency N:' log line is parsed: the (fiel
 PROPS["C19"]["rule"] += " The watch ends in one of three ways: context cancelled, event source ended, event source failed (Watch must return the error and still close every channel)."
 PROPS["C02"]["rule"] += " The sweep enumerates every prefix length 0..128 for prefix, route and pref64 (a dense network and the unspecified one), every hop limit -2..258 and MTUs around every power of two; duration values are spelled in ten ways (Go's own, whole s/ms/us/m, tenths of an hour, hundredths of a second, a sign, leading zeros, units in reverse order) while the reference works on the exact nanosecond value."
 PROPS["C03"]["rule"] += " pref64 CIDR strings cover every length 0..128 of two IPv6 networks and every length of an IPv4 network."
+PROPS["C12"]["rule"] += " One received RA in three may list a prefix or route in several options (another router may; our configuration cannot): an inconsistency of any copy must be reported; labels are then compared as sets. Field values also cover 1, limit-1, 65535 and 2^32-1 style extremes and any hop limit."
+PROPS["C17"]["rule"] += " Overlap probes run in two rounds (three requests 0.7 ms apart, two requests 1.4 ms apart) and include the debug API: each overlapping answer must equal the answer of the request that ran alone (API bodies only when no advertised value depends on time); the quiet window covers every recorded Prepare instant and lasts until the slowest overlapping request has finished. Whole-process: two real API requests 3 ms apart."
